@@ -194,6 +194,12 @@ func (fc *FuncCtx) call(fr *Frame, st *State, res ssa.Value, call *ssa.CallCommo
 		nf.contract = c
 		nf.depth = fr.depth + 1
 		fc.inlined[fullName(callee)] = true
+		if hasLoop(callee) {
+			if fc.inlinedWithLoops == nil {
+				fc.inlinedWithLoops = map[string]bool{}
+			}
+			fc.inlinedWithLoops[fullName(callee)] = true
+		}
 		rst, vals := fc.run(nf, st.clone(), args, fvs)
 		if rst == nil {
 			st.dead = true
@@ -549,7 +555,45 @@ func (fc *FuncCtx) specialExtern(fr *Frame, st *State, callee *ssa.Function, arg
 		fc.addObl(fr, st, "model", name+" argument is a byte", And(Le(IntLit(0), x), Le(x, IntLit(255))), pos, "unicode case mapping is modelled on bytes only")
 		fc.note(name + " on bytes: 256-entry table generated from Go's unicode package when the engine is built")
 		return Val{T: App(fn, SInt, x)}, true
+	case "math.IsNaN":
+		if args[0].T.Sort == SXReal {
+			return Val{T: XIsNaN(args[0].T)}, true
+		}
+		return Val{T: False}, true
+	case "math.IsInf":
+		if args[0].T.Sort == SXReal {
+			x, sg := args[0].T, args[1].T
+			return Val{T: Or(And(Ge(sg, IntLit(0)), XIsPInf(x)), And(Le(sg, IntLit(0)), XIsNInf(x)))}, true
+		}
+		return Val{T: False}, true
+	case "math.NaN":
+		if floatSort == SXReal {
+			return Val{T: XNaN}, true
+		}
+		unsupp("math.NaN in real float mode")
+	case "math.Max", "math.Min":
+		if args[0].T.Sort == SXReal || args[1].T.Sort == SXReal {
+			if name == "math.Max" {
+				return Val{T: XMax(args[0].T, args[1].T)}, true
+			}
+			return Val{T: XMin(args[0].T, args[1].T)}, true
+		}
+		a, b := ToReal(args[0].T), ToReal(args[1].T)
+		if name == "math.Max" {
+			return Val{T: Ite(Ge(a, b), a, b)}, true
+		}
+		return Val{T: Ite(Le(a, b), a, b)}, true
 	case "math.Log", "math.Exp", "math.Sqrt":
+		if args[0].T.Sort == SXReal {
+			fc.note(name + " on extended reals: IEEE special cases exact, finite values through an uninterpreted real function with ground-instantiated axioms")
+			switch name {
+			case "math.Log":
+				return Val{T: XLn(args[0].T)}, true
+			case "math.Exp":
+				return Val{T: XExp(args[0].T)}, true
+			}
+			return Val{T: XSqrt(args[0].T)}, true
+		}
 		fn := map[string]string{"math.Log": "m_ln", "math.Exp": "m_exp", "math.Sqrt": "m_sqrt"}[name]
 		x := args[0].T
 		if name == "math.Log" {
@@ -561,12 +605,22 @@ func (fc *FuncCtx) specialExtern(fr *Frame, st *State, callee *ssa.Function, arg
 		fc.note(name + " is an uninterpreted real function with ground-instantiated axioms")
 		return Val{T: App(fn, SReal, x)}, true
 	case "math.Pow":
+		if args[0].T.Sort == SXReal || args[1].T.Sort == SXReal {
+			fc.note("math.Pow on extended reals: finite arguments exact by cases (negative base with non-integer exponent is NaN), other special-value combinations unconstrained")
+			return Val{T: XPow(args[0].T, args[1].T)}, true
+		}
 		fc.addObl(fr, st, "fdomain", "math.Pow base > 0", Gt(args[0].T, RealLitStr("0")), pos, "power of a non-positive base (model validity)")
 		return Val{T: App("m_pow", SReal, args[0].T, args[1].T)}, true
 	case "math.Abs":
 		x := args[0].T
+		if x.Sort == SXReal {
+			return Val{T: XAbs(x)}, true
+		}
 		return Val{T: Ite(Ge(x, RealLitStr("0")), x, Neg(x))}, true
 	case "math.Inf":
+		if floatSort == SXReal {
+			return Val{T: Ite(Ge(args[0].T, IntLit(0)), XPInf, XNInf)}, true
+		}
 		unsupp("math.Inf in real float mode")
 	case modulePath + "/io.ExitWithMessage":
 		// terminates the process (os.Exit): never returns. Reaching it is an
